@@ -69,3 +69,62 @@ package choquet
 //@   property C03 C20
 //@   nopanic
 //@   ensures [name] result == "choquetIntegral"
+
+// ---- what the parser rejects (C20, C03): non-gain criteria, a capacity outside [0,1], a missing capacity
+//@ func validateAllCriteriaAreGain
+//@   property C03 C20
+//@   panics_iff [a_criterion_is_not_gain] exists k int :: 0 <= k && k < len(*criteria) && (*criteria)[k].Type != model.Gain
+//@   loop 1 invariant [gain_so_far] forall k int :: 0 <= k && k < iter ==> (*criteria)[k].Type == model.Gain
+//@ func validateWeightValue
+//@   property C03 C20
+//@   panics_iff [capacity_outside_the_unit_interval] v < 0.0 || v > 1.0
+//@ func getWeightForCombinedCriterion
+//@   property C03 C20
+//@   panics_iff [capacity_missing] !(*weightKey in *weights)
+//@   ensures [that_capacity] result == (*weights)[*weightKey]
+//@ func prepareWeights
+//@   property C03 C20
+//@   ensures [capacities_in_the_unit_interval] result != nil && fresh(result) && forall q string :: q in *result ==> 0.0 <= (*result)[q] && (*result)[q] <= 1.0
+//@   loop 1 invariant [ctx] fresh(resultWeights) && resultWeights != nil
+//@   loop 1 invariant [in_range_so_far] forall q string :: q in resultWeights ==> 0.0 <= resultWeights[q] && resultWeights[q] <= 1.0
+//@ func parse
+//@   property C03 C20
+//@   ensures [validated] result != nil && (forall k int :: 0 <= k && k < len(*criteria) ==> (*criteria)[k].Type == model.Gain)
+//@             && forall q string :: q in *result ==> 0.0 <= (*result)[q] && (*result)[q] <= 1.0
+//@ func (*ChoquetIntegralPreferenceFunc).ParseParams
+//@   property C03 C20
+//@   ensures [validated_capacities_over_the_declared_criteria] typeis(result, choquetParams) && result.(choquetParams).weights != nil && *result.(choquetParams).criteria == dm.Criteria
+//@             && (forall k int :: 0 <= k && k < len(dm.Criteria) ==> dm.Criteria[k].Type == model.Gain)
+//@             && forall q string :: q in *result.(choquetParams).weights ==> 0.0 <= (*result.(choquetParams).weights)[q] && (*result.(choquetParams).weights)[q] <= 1.0
+
+// ---- the listener's seam (C07, C18): OnCriterionAdded returns an ADDITION - capacities the parameters do not hold yet and the
+// one new criterion - so that Merge, which joins the two key sets and rejects a repeated key, accepts it.
+// (PowerSet enumerates subsets with bit operations and the keys are joined strings: both stay opaque here; the statement
+// below needs neither.)
+// PowerSet: bit operations over the index - outside the generator's subset; assumed: every list it returns is a new object
+//@ func PowerSet
+//@   trusted
+//@   ensures [new_lists] result != nil && fresh(result) && fresh(*result) && forall i int :: 0 <= i && i < len(*result) ==> fresh((*result)[i])
+//@ func criterionKey
+//@   property C07 C18 C03
+//@   assigns *criteria
+//@   ensures [same_list_object] *criteria == old(*criteria)
+//@ func (*ChoquetIntegralBiasListener).OnCriterionAdded
+//@   property C07 C18
+//@   fnparam generator ensures 0.0 <= result && result < 1.0
+//@   requires [parameters] typeis(params, choquetParams) && params.(choquetParams).weights != nil && params.(choquetParams).criteria != nil
+//@   requires [the_new_criterion_has_no_capacity_yet] !(criterion.Id in *params.(choquetParams).weights)
+//@   ensures [an_addition_only_capacities_not_held_yet] typeis(result, choquetParams) && result.(choquetParams).weights != nil
+//@             && forall q string :: q in *result.(choquetParams).weights ==> !(q in *params.(choquetParams).weights)
+//@   ensures [an_addition_only_the_new_criterion] result.(choquetParams).criteria != nil && len(*result.(choquetParams).criteria) == 1 && (*result.(choquetParams).criteria)[0] == *criterion
+//@   loop 1 invariant [ctx] fresh(newWeights) && newWeights != nil
+//@   loop 1 invariant [only_new_so_far] forall q string :: q in newWeights ==> !(q in *oldWeights)
+//@ func (*ChoquetIntegralBiasListener).Merge
+//@   property C07 C18
+//@   requires [parameters] typeis(params, choquetParams) && params.(choquetParams).weights != nil && params.(choquetParams).criteria != nil
+//@   requires [addition] typeis(addition, choquetParams) && addition.(choquetParams).weights != nil && addition.(choquetParams).criteria != nil
+//@   panics_iff [a_capacity_is_given_twice] exists q string :: q in *params.(choquetParams).weights && q in *addition.(choquetParams).weights
+//@   ensures [joined] typeis(result, choquetParams) && result.(choquetParams).weights != nil && result.(choquetParams).criteria != nil
+//@             && len(*result.(choquetParams).criteria) == len(*params.(choquetParams).criteria) + len(*addition.(choquetParams).criteria)
+//@             && (forall q string :: q in *result.(choquetParams).weights <==> (q in *params.(choquetParams).weights || q in *addition.(choquetParams).weights))
+//@             && (forall q string :: q in *params.(choquetParams).weights ==> (*result.(choquetParams).weights)[q] == (*params.(choquetParams).weights)[q])
